@@ -122,6 +122,11 @@ Theorem c02_dump_expected : forall h : list (op N), wf_hist h -> model_dump h = 
 Proof. exact (fun h _ => model_dump_expected h). Qed.
 Print Assumptions c02_dump_expected.
 
+(* the same for the single dump taken after the last op of a long history *)
+Theorem c02_dump_last_expected : forall h : list (op N), wf_hist h -> model_dump_last h = spec_dump_last h.
+Proof. exact (fun h _ => model_dump_last_expected h). Qed.
+Print Assumptions c02_dump_last_expected.
+
 (* non-vacuity: the D2 history, a separator, a pre-built row attached late, a
    header added after the rows *)
 Example c02_example :
